@@ -50,7 +50,9 @@ class World(object):
         return self.find('deserialize', lambda b: b.name.count('<impl at') == 1 and re.search(r'-> Result<(?:\w+::)*%s<' % re.escape(ty), b.header) is not None)
 
     def field_deserialize_body(self, owner):
-        return self.find('deserialize', lambda b: b.name.count('<impl at') == 2 and re.search(r'for (?:\w+::)*%s<' % re.escape(owner), b.header) is not None and '__Field' in b.header)
+        # owner None: rustc prints a type name that is unique in the crate without its path
+        return self.find('deserialize', lambda b: b.name.count('<impl at') == 2 and '__Field' in b.header and
+                         (owner is None or re.search(r'for (?:\w+::)*%s<' % re.escape(owner), b.header) is not None))
 
     def visitor_body(self, vtext, method):
         m = re.search(r'for (?:\w+::)*(\w+)<.*?>>::deserialize::(__FieldVisitor|__Visitor)', vtext)
@@ -58,6 +60,10 @@ class World(object):
             owner, vk = m.group(1), m.group(2)
             return self.find(method, lambda b: re.search(r'for (?:\w+::)*%s<' % owner, self._first_arg_ty(b)) is not None and
                              re.search(r'::%s(<|$)' % vk, self._first_arg_ty(b)) is not None)
+        m = re.fullmatch(r"(__FieldVisitor|__Visitor)(<.*>)?", vtext.strip())
+        if m:
+            vk = m.group(1)
+            return self.find(method, lambda b: re.search(r'(^|::|&)%s(<|$)' % vk, self._first_arg_ty(b)) is not None)
         m = re.match(r'(?:\w+::)*(\w+Visitor)<', vtext)
         if m:
             return self.find(method, lambda b: re.match(r'(?:\w+::)*%s<' % m.group(1), self._first_arg_ty(b)) is not None)
@@ -65,36 +71,7 @@ class World(object):
 
     # ------------------------------------------------------------ synchronous nested execution
     def subcall(self, ex, st, body, args):
-        if body.errors:
-            raise Unsupported('function %s contains a MIR construct the front end does not understand' % body.sname)
-        sub = Exec(ex.p, ex.overflow_checks)
-        sub.overrides = ex.overrides
-        s2 = State()
-        s2.pc = list(st.pc)
-        s2.next_cell = st.next_cell
-        s2.log = st.log
-        s2.notes = st.notes
-        s2.anchors = st.anchors
-        fr = Frame(body)
-        if len(args) != len(body.args):
-            raise Unsupported('arity mismatch calling %s' % body.sname)
-        for i, v in zip(body.args, args):
-            fr.locals[i] = s2.new_cell(v)
-        s2.frames.append(fr)
-        outs = sub.run(s2)
-        ex.bodies_used |= sub.bodies_used | {body.sname}
-        ex.models_used |= sub.models_used
-        ex.nq += sub.nq
-        if len(outs) != 1:
-            raise Unsupported('serde model: nested call of %s has %d paths (must be deterministic)' % (body.sname, len(outs)))
-        o = outs[0]
-        if o.kind != 'return':
-            raise Panic('panic inside %s: %s' % (body.sname, o.value))
-        if o.state is not s2:
-            raise Unsupported('serde model: nested call of %s forked' % body.sname)
-        st.pc[:] = s2.pc
-        st.next_cell = s2.next_cell
-        return o.value
+        return ex.subcall(st, body, args)
 
     # ------------------------------------------------------------ Serialize side
     def ser_value(self, ex, st, vref):
@@ -149,7 +126,13 @@ class World(object):
         if T in ('i64', '<NumericTypes as numeric_types::EvalexprNumericTypes>::Int', '<NumericTypes as EvalexprNumericTypes>::Int'):
             return ok(content.fields[0]) if k == 'i64' else bad()
         if T in ('f64', '<NumericTypes as numeric_types::EvalexprNumericTypes>::Float', '<NumericTypes as EvalexprNumericTypes>::Float'):
-            return ok(content.fields[0]) if k == 'f64' else bad()
+            if k == 'f64':
+                return ok(content.fields[0])
+            if k in ('i64', 'i32', 'u64', 'u32'):
+                # serde's f64 visitor accepts integers (`visit_i64` / `visit_u64` convert with `as f64`)
+                t = content.fields[0].t
+                return ok(Fl(z3.fpSignedToFP(z3.RNE(), t, F64) if k[0] == 'i' else z3.fpUnsignedToFP(z3.RNE(), t, F64)))
+            return bad()
         if T in ('std::string::String', 'String'):
             return ok(SStr(list(content.fields[0].items))) if k == 'str' else bad()
         if T in ('IgnoredAny', 'context::_::_serde::de::IgnoredAny'):
@@ -187,8 +170,8 @@ class World(object):
                     vals.append(r.fields[0])
             return ok(HashMapV(keys, vals))
         m = re.search(r'for (?:\w+::)*(\w+)<.*>>::deserialize::__Field$', T)
-        if m:
-            body = self.field_deserialize_body(m.group(1))
+        if m or T == '__Field':
+            body = self.field_deserialize_body(m.group(1) if m else None)
             return self.subcall(ex, st, body, [Adt('IdentDeserializer', 0, [content])])
         m = re.match(r'(?:\w+::)*(\w+)(<|$)', T)
         if m and any(b.name.endswith('::deserialize') and re.search(r'-> Result<(?:\w+::)*%s<' % m.group(1), b.header) for b in self.p.bodies):
@@ -363,6 +346,44 @@ class World(object):
                 return ok(none())
             return err(serde_error('missing_field', args[0]))
 
+        def std_serialize(ex_, st, c, args):
+            # <T as Serialize>::serialize(&value, serializer) for a non-crate T (derive calls it directly for untagged / transparent representations)
+            W.trace.append('std serialize')
+            return W.ser_value(ex_, st, args[0])
+
+        def std_deserialize(ex_, st, c, args):
+            raw = getattr(st, 'cur_raw', '') or ''
+            m = re.match(r"<(.*) as (?:\w+::)*Deserialize<'_>>::deserialize", raw)
+            if not m:
+                return NOTFOUND
+            T = m.group(1)
+            if re.match(r'(?:\w+::)*(HashMapContext|Value|Node)<', T):
+                return NOTFOUND
+            d = content_of(args[0])
+            W.trace.append('std deserialize %s' % T[:30])
+            return W.de_value(ex_, st, T, d.fields[0])
+
+        def content_buf(ex_, st, c, args):
+            m = c.split('::')[-1]
+            if m == 'new' and 'ContentVisitor' in c:
+                return Adt('ContentVisitor', 0, [])
+            if m == 'deserialize' and 'ContentVisitor' in c:
+                return ok(Adt('ContentBuf', 0, [content_of(args[1]).fields[0]]))
+            if m == 'new' and 'ContentRefDeserializer' in c:
+                return Adt('ModelDeserializer', 0, [D(args[0]).fields[0]])
+            if m == 'new' and 'UntaggedUnitVisitor' in c:
+                return Adt('UntaggedUnitVisitor', 0, [])
+            if m == 'deserialize_any' and 'ContentRefDeserializer' in c:
+                d = content_of(args[0])
+                v = args[1]
+                if isinstance(v, Adt) and v.ty == 'UntaggedUnitVisitor':
+                    return ok(mkunit()) if kind_of(d.fields[0]) == 'unit' else err(serde_error('invalid_type', sstr('unit')))
+            raise Unsupported('serde model: %s' % c[:120])
+
+        from engine import NOTFOUND
+        ex.overrides.append((re.compile(r'(\w+::)*__private\d*::de::content::\w+(<.*>)?::\w+|<(\w+::)*__private\d*::de::content::\w+<.*> as .*>::\w+'), content_buf))
+        ex.overrides.append((re.compile(r'<(bool|i64|u64|f64|std::string::String|String|Vec<.*>|HashMap<.*>|<NumericTypes as .*>::(Int|Float)|std::option::Option<.*>|\(\)) as (\w+::)*Serialize>::serialize'), std_serialize))
+        ex.overrides.append((re.compile(r"<.* as (\w+::)*Deserialize<'_>>::deserialize"), std_deserialize))
         ex.overrides.append((re.compile(r'<(__S|S|.*ModelSerializer.*) as (\w+::)*Serializer>::\w+'), ser))
         ex.overrides.append((re.compile(r'<<.* as (\w+::)*Serializer>::Serialize\w+ as (\w+::)*Serialize\w+>::\w+'), ser))
         ex.overrides.append((re.compile(r"<(__D|D) as (\w+::)*Deserializer<'_>>::\w+"), de))
